@@ -186,6 +186,21 @@ func c16Cases() []c16Case {
 		out = append(out, c16Case{Fault: "unknown test file", Where: a, Cmd: "renumber-tests", Args: []string{"util", "renumber-tests", a}, Tree: c16Base()},
 			c16Case{Fault: "unknown test file", Where: a, Cmd: "renumber-tests --check", Args: []string{"util", "renumber-tests", "-c", a}, Tree: c16Base()})
 	}
+	// a test file that exists twice (in two test directories, or with both extensions): the argument is ambiguous
+	{
+		t := c16Base()
+		t["tests/regression/tests/REQUEST-123-TEST/123499.yaml"] = "tests:\n  - test_id: 7\n"
+		t["tests/regression/tests/REQUEST-999-OTHER/123499.yaml"] = "tests:\n  - test_id: 9\n"
+		t["tests/regression/tests/REQUEST-123-TEST/123498.yaml"] = "tests:\n  - test_id: 7\n"
+		t["tests/regression/tests/REQUEST-123-TEST/123498.yml"] = "tests:\n  - test_id: 9\n"
+		for _, a := range []string{"123499", "123499.yaml", "123498", "123498.yaml", "123498.yml"} {
+			if a == "123498.yaml" || a == "123498.yml" {
+				continue // the extension decides between the two: not ambiguous
+			}
+			out = append(out, c16Case{Fault: "ambiguous test file", Where: a, Cmd: "renumber-tests", Args: []string{"util", "renumber-tests", a}, Tree: t},
+				c16Case{Fault: "ambiguous test file", Where: a, Cmd: "renumber-tests --check", Args: []string{"util", "renumber-tests", "-c", a}, Tree: t})
+		}
+	}
 	// every --all case again with entries beside the assembly files that a walk must step over
 	for _, c := range out {
 		if strings.Contains(c.Cmd, "--all") && !strings.HasPrefix(c.Cmd, "format") {
